@@ -36,6 +36,7 @@ class FsScenario(Scenario):
     weights = None
     allow_ops = None
     paced_share = 0.0  # share of runs that drain after every operation
+    unpaced_share = 0.0  # share of the remaining runs whose history ignores the directory pacing condition
     with_probes = True
     nonrec_share = 0.2
     full_share = 0.2
@@ -79,12 +80,13 @@ class FsScenario(Scenario):
         if cfg.random() < 0.03:
             n = 40
         paced = cfg.random() < self.paced_share
+        unpaced = (not paced) and cfg.random() < self.unpaced_share  # histories outside the pacing condition (C03 soundness)
         w = dict(self.pick_weights(cfg) or fm.DEFAULT_WEIGHTS)
         if paced:
             w.pop("drain", None)
         else:
             w["drain"] = cfg.choice([0, 1, 3, 6])
-        ops = fm.gen_ops(rng, m, n, names=self.names, weights=w, paced=True, drain_each=paced, allow=self.allow_ops)
+        ops = fm.gen_ops(rng, m, n, names=self.names, weights=w, paced=not unpaced, drain_each=paced, allow=self.allow_ops)
         faults = {}
         if frng.random() < 0.5:
             faults["short_read"] = [frng.choice([32, 48, 64, 96, 300, 0]) for _ in range(frng.randrange(1, 5))]
@@ -94,6 +96,8 @@ class FsScenario(Scenario):
         if cfg.random() < 0.1:
             sched["stall"] = [cfg.choice(["BaseObserver", "Em", "InotifyBuffer"]), cfg.randrange(0, 2000), cfg.randrange(50, 1500)]
         case = {"pre": pre, "ops": ops, "watch": self.gen_watch(cfg), "delay": cfg.choice([0.5, 0.5, 0.125, 2.0]), "faults": faults, "paced": paced, "sched": sched}
+        if unpaced:
+            case["unpaced"] = True
         self.tweak(case, rng, cfg)
         return case
 
@@ -112,7 +116,7 @@ class FsScenario(Scenario):
                 c["ops"] = ops
             pre_kept, _ = fm.revalidate([], c["pre"], paced=False)
             c["pre"] = pre_kept
-            kept, _ = fm.revalidate(c["pre"], c["ops"], paced=True)
+            kept, _ = fm.revalidate(c["pre"], c["ops"], paced=not case.get("unpaced"))
             c["ops"] = kept
             return c
 
@@ -148,7 +152,7 @@ class FsScenario(Scenario):
         run.enable_monitoring()
         res = {}
         # independent re-validation of the pre-condition (pacing rule) on the history about to be executed
-        kept, _ = fm.revalidate(case["pre"], case["ops"], paced=True)
+        kept, _ = fm.revalidate(case["pre"], case["ops"], paced=not case.get("unpaced"))
         if kept != case["ops"]:
             return {"harness_error": f"history violates the pacing pre-condition or the model: {case['ops']} vs {kept}", "violations": [], "stats": {}, "digest": "", "trace": {}}
 
@@ -185,14 +189,14 @@ class FsScenario(Scenario):
             res["ever_paths"] = sorted(run.ever)
             if run.backend == "polling":
                 sim.rec("events-sorted", sorted(e["shape"] for e in run.events))
-            res["replay"] = run.oracle_replay(tree0) if run.backend == "inotify" else None
+            res["replay"] = run.oracle_replay(tree0) if run.backend == "inotify" and not case.get("unpaced") else None
             real = run.scan("root")
             res["real"] = real
             mt = {p: k for p, (k, _) in run.model.t.items() if fm.is_under(p, "root") and p != "root"}
             if real is not None and mt != real:
                 raise AssertionError(f"model tree != real tree: {sorted(set(mt.items()) ^ set(real.items()))[:6]}")
             self.after_ops(run, res, sim)
-            if self.with_probes and real is not None and "root" in run.model.t:
+            if self.with_probes and real is not None and "root" in run.model.t and not case.get("unpaced"):
                 run.phase = "probe"
                 res["probes"] = self.do_probes(run, sim, real)
                 res["probes_filtered"] = res["probes"].get("filtered_missing")
@@ -333,6 +337,7 @@ class C03(FsScenario):
                   "the random walk reaches.")
     level_note = C01.level_note + "; A(o)/R(o) follow Appendix A of DESIGN.md (calibrated on the unchanged tree, sets not sequences)"
     paced_share = 0.6
+    unpaced_share = 0.0  # unpaced histories make the library report renames as created/deleted by design: not judged
     with_probes = False
 
     def pick_weights(self, cfg):
@@ -344,6 +349,8 @@ class C03(FsScenario):
         if not res.get("done"):
             return v
         bad = run.oracle_sound()
+        if bad and run.case.get("unpaced"):
+            bad = [b for b in bad if not self.late_descendant(run, b)]
         if bad:
             from .fsworld import classify_event
 
@@ -363,6 +370,27 @@ class C03(FsScenario):
             break
         return v
 
+
+
+def _late_descendant(run, rec):
+    """Unpaced histories: a synthetic event may name a descendant that entered the moved / arrived directory through a
+    later operation (the library walks the destination when it processes the move).  The statement allows it: its
+    destination is a real descendant of that directory and its source the same relative path under the old name."""
+    et, isd, s, d, syn = rec["shape"]
+    if not syn:
+        return False
+    for c in run.contracts:
+        if c["opi"] > rec["opi"]:
+            break
+        op = c["op"]
+        if et == "moved" and op[0] == "rename" and fm.is_under(d, op[2]) and d != op[2] and s == op[1] + d[len(op[2]):] and d in run.ever:
+            return True
+        if et == "created" and op[0] == "movein_tree" and fm.is_under(s, op[2]) and s != op[2] and s in run.ever:
+            return True
+    return False
+
+
+C03.late_descendant = staticmethod(_late_descendant)
 
 
 class C07(FsScenario):
